@@ -1123,6 +1123,19 @@ def is_inc_of(expr, field, by=None):
             except ValueError:
                 return None
             return k if e[1].startswith("Add") else -k
+    # field.saturating_sub(1) / wrapping_add(1) / checked_add(1).unwrap(): the same step on every state in which the plain
+    # operator does not overflow
+    if e[0] == "call" and _re_mod.search(r"core::option::Option::<T>::(unwrap|expect|unwrap_unchecked)$", e[1] or "") and e[2]:
+        e = e[2][0]
+    if e[0] == "call" and len(e[2]) == 2:
+        m = _re_mod.search(r"core::num::<impl u\w+>::(?:saturating|wrapping|unchecked|checked|strict)_(add|sub)$", e[1] or "")
+        a, b = e[2][0], e[2][1]
+        if m and a[0] == "proj" and a[2] and a[2][-1] == field and b[0] == "const":
+            try:
+                k = int(b[2])
+            except ValueError:
+                return None
+            return k if m.group(1) == "add" else -k
     return None
 
 
